@@ -99,7 +99,7 @@ def _post_dereg(engine, st, ctx, out):
     writes = [e for e in st.trace if e.kind == "write" and e.meth == "_poll_descriptors"]
     cl = [("deregistration does not raise", "EX", not isinstance(out, Raise), ["C08", "C18"])]
     cl.append(("the list is replaced exactly once, under the executor lock", "PC",
-               z3.BoolVal(len(writes) == 1 and any(h[3] == "_lock" for h in writes[0].held)), ["C08", "C12"]))
+               z3.BoolVal(len(writes) == 1 and any(h[3] == "_lock" for h in writes[0].held)), ["C08", "C12", "C03"]))
     lc = [v for k_, v in st.ghost.items() if k_.startswith("lc:")]
     if len(writes) == 1 and lc:
         g = lc[0]
@@ -112,7 +112,7 @@ def _post_dereg(engine, st, ctx, out):
         cl.append(("every other entry is kept (k arbitrary position of the old list), in order", "PC",
                    z3.Implies(z3.And(k >= 0, k < g["n"], fut_of(st, z3.Select(src_at, k)) != ctx["fut"].t),
                               z3.And(z3.Select(g["pos"], k) >= 0, z3.Select(g["pos"], k) < st.get("$len", nid),
-                                     z3.Select(st.get("$at", nid), z3.Select(g["pos"], k)) == z3.Select(src_at, k))), ["C08"]))
+                                     z3.Select(st.get("$at", nid), z3.Select(g["pos"], k)) == z3.Select(src_at, k))), ["C08", "C03"]))
     return cl
 
 
@@ -261,7 +261,7 @@ def _post_cancel_fn(engine, st, ctx, out):
 UNITS = [
     Unit("PollExecutor._register_poll", "poll.PollExecutor._register_poll", ["C08", "C01", "C03", "C06", "C12", "C18"], _setup_register, _post_register,
          cfg=_cfg, self_cls="PollExecutor"),
-    Unit("PollExecutor._deregister_poll", "poll.PollExecutor._deregister_poll", ["C08", "C12", "C18"], _setup_dereg, _post_dereg, cfg=_cfg, self_cls="PollExecutor"),
+    Unit("PollExecutor._deregister_poll", "poll.PollExecutor._deregister_poll", ["C08", "C12", "C18", "C03"], _setup_dereg, _post_dereg, cfg=_cfg, self_cls="PollExecutor"),
     Unit("PollExecutor._run_poll_fn", "poll.PollExecutor._run_poll_fn", ["C08", "C01", "C04", "C18", "C20"], _setup_run, _post_run, cfg=_cfg_run2, self_cls="PollExecutor"),
     Unit("PollExecutor._run_cancel_fn", "poll.PollExecutor._run_cancel_fn", ["C08", "C02", "C06", "C18"], _setup_cancel_fn, _post_cancel_fn,
          cfg=_cfg_cancel_fn, self_cls="PollExecutor"),
@@ -440,7 +440,7 @@ UNITS += [
     Unit("PollFuture._delegate_resolved[nested in own cancel()]", "poll.PollFuture._delegate_resolved", ["C04", "C02", "C03", "C08", "C18"], _setup_pf_resolved_nested,
          _post_pf_resolved_nested, cfg=lambda: (lambda c: (c.contracts.pop("more_executors._impl.poll.PollFuture._delegate_resolved"), c)[1])(_cfg_fut()), self_cls="PollFuture"),
     Unit("PollFuture.__init__", "poll.PollFuture.__init__", ["C08", "C03", "C12", "C18"], _setup_pf_init, _post_pf_init, cfg=_cfg_fut, self_cls="PollFuture"),
-    Unit("PollFuture._delegate_resolved", "poll.PollFuture._delegate_resolved", ["C08", "C01", "C03", "C18"], _setup_pf_resolved, _post_pf_resolved,
+    Unit("PollFuture._delegate_resolved", "poll.PollFuture._delegate_resolved", ["C08", "C01", "C03", "C18", "C02", "C04"], _setup_pf_resolved, _post_pf_resolved,
          cfg=lambda: (lambda c: (c.contracts.pop("more_executors._impl.poll.PollFuture._delegate_resolved"), c)[1])(_cfg_fut()), self_cls="PollFuture"),
     Unit("PollFuture._clear_executor", "poll.PollFuture._clear_executor", ["C08", "C12"], _setup_pf_clear, _post_pf_clear, cfg=_cfg_fut, self_cls="PollFuture"),
     Unit("_poll_loop", "poll._poll_loop", ["C08", "C03", "C11", "C12", "C18"], _setup_loop, _post_loop, cfg=_cfg_loop),
